@@ -279,7 +279,9 @@ static void sc_publisher() {
             SINK(cp.position());
         });
         while (!go.load()) std::this_thread::yield();
-        for (int k = 0; k < 40; k++) pub.publish(k);
+        std::thread p2([&] { for (int k = 0; k < 40; k++) { pub.publish(1000 + k); if (k % 7 == 0) std::this_thread::yield(); } });
+        for (int k = 0; k < 40; k++) { pub.publish(k); if (k % 5 == 0) std::this_thread::yield(); }
+        p2.join();
         pub.close();
         s1.join(); s2.join();
     }
